@@ -183,7 +183,8 @@ pub fn c20(a: &Analysis<'_>, out: &mut Vec<Violation>) {
         let scenario: Option<String> = match c.kind {
             CbKind::Before | CbKind::After => c.scenario.clone(),
             CbKind::Step => own_step_owner.get(&c.site).cloned().or_else(|| c.world.and_then(|w| world_scenario.get(&w).cloned())),
-            CbKind::WorldNew => None,
+            // a World constructor: the scenario is known once a hook or own step identified the World it made
+            CbKind::WorldNew => c.world.and_then(|w| world_scenario.get(&w).cloned()),
         };
         // candidate emitting attempts: attempts of that scenario (or, for a background step whose
         // World never met a scenario-identifying callback, of any scenario having that step) whose
@@ -195,7 +196,9 @@ pub fn c20(a: &Analysis<'_>, out: &mut Vec<Violation>) {
                 scenario.as_ref().is_none_or(|s| &t.scenario == s)
                     && t.started.is_some_and(|s| evs[s].at < c.enter)
                     && t.finished.is_some_and(|f| evs[f].at > c.exit.unwrap_or(c.enter))
-                    && (scenario.is_some() || a.st.scenarios.get(&t.scenario).is_some_and(|sc| sc.steps.iter().any(|(tx, _, _)| crate::plan::site_step(tx) == c.site)))
+                    && (scenario.is_some()
+                        || c.kind == CbKind::WorldNew
+                        || a.st.scenarios.get(&t.scenario).is_some_and(|sc| sc.steps.iter().any(|(tx, _, _)| crate::plan::site_step(tx) == c.site)))
             })
             .collect();
         if candidates.is_empty() {
@@ -232,7 +235,17 @@ pub fn c20(a: &Analysis<'_>, out: &mut Vec<Violation>) {
                                 at.seq.iter().copied().find(|i| is(i) && matches!(evs[*i].k, K::StepPassed { .. } | K::StepFailed { .. } | K::StepSkipped { .. })),
                             )
                         }
-                        CbKind::WorldNew => (None, None),
+                        // World::new runs inside the before hook if one is set, else inside the first
+                        // step that needs a World: the step started last before the constructor ran
+                        CbKind::WorldNew if a.plan.before_hook => (
+                            at.seq.iter().copied().find(|i| matches!(evs[*i].k, K::HookStarted(crate::record::Hk::Before))),
+                            at.seq.iter().copied().find(|i| matches!(evs[*i].k, K::HookPassed(crate::record::Hk::Before) | K::HookFailed(crate::record::Hk::Before, ..))),
+                        ),
+                        CbKind::WorldNew => {
+                            let s = at.seq.iter().copied().filter(|i| matches!(evs[*i].k, K::StepStarted { .. }) && evs[*i].at < c.enter).last();
+                            let r = s.and_then(|s| at.seq.iter().copied().find(|i| *i > s && matches!(evs[*i].k, K::StepPassed { .. } | K::StepFailed { .. } | K::StepSkipped { .. })));
+                            (s, r)
+                        }
                     };
                     let after_start = start_idx.is_some_and(|s| s < *i);
                     let before_result = result_idx.is_some_and(|r| *i < r);
